@@ -135,6 +135,18 @@ class Widths:
         self.global_bits = {n for n, v in decl.items() if all(v)} | (PROTOCOL_BITS - {n for n, v in decl.items() if not all(v)})
         self.own = {}
         self.own_signal = set()
+        self.private_signals = set()
+        if cls is not None:
+            import ast as _ast
+            for k in [cls] + list(index.bases_of(cls)):
+                init = k.method("__init__")
+                if init is None:
+                    continue
+                for st in _ast.walk(init.node):
+                    if isinstance(st, _ast.Assign) and len(st.targets) == 1 and isinstance(st.targets[0], _ast.Attribute) and \
+                            isinstance(st.targets[0].value, _ast.Name) and st.targets[0].value.id == "self" and \
+                            isinstance(st.value, _ast.Call) and _ast.unparse(st.value.func) in ("Signal", "Signal.like"):
+                        self.private_signals.add(st.targets[0].attr)
         if cls is not None:
             for name, ds in index.members(cls).items():
                 self.own[name] = all(self._shape_is_bit(s) and not arr for _, s, _, _, arr in ds)
@@ -177,7 +189,7 @@ class Widths:
                 return True
             if e[2] in self.DATA_ATTRS:
                 return True
-            if e[1] == ('name', 'self') and e[2].startswith('_storage'):
+            if e[1] == ('name', 'self') and (e[2].startswith('_storage') or e[2] in self.private_signals):
                 return True
         return False
 
@@ -344,6 +356,27 @@ class Engine:
                 b = self._b(lhs)
                 pos = (rhs[1] == 1) == (e[1] == '==')
                 return b if pos else f_not(b)
+            # <multi-bit combinational wire> == K: decided from the wire's own drivers
+            pair = None
+            if rhs == ('const', 0) and lhs[0] == 'lin':
+                terms = dict(lhs[2])
+                sigs = [t for t, cf in lhs[2] if t[0] == 'sig' and cf in (1, -1)]
+                if len(sigs) == 1:
+                    s_ = sigs[0]
+                    cf = terms[s_]
+                    rest = {t: -v * cf for t, v in terms.items() if t != s_}
+                    pair = (s_, ir.norm(ir._from_lin(-lhs[1] * cf, rest), self.ctx))
+            elif lhs[0] == 'sig':
+                pair = (lhs, rhs)
+            elif rhs[0] == 'sig':
+                pair = (rhs, lhs)
+            if pair is not None:
+                wf = self.wire_equals(pair[0], pair[1])
+                if wf is not None:
+                    return wf if e[1] == '==' else f_not(wf)
+                if self.is_comb_wire(pair[0]):
+                    # a comparison with an intermediate wire that cannot be resolved is opaque: never grounds for a violation
+                    return self.atom(('opaque', f"{ir.show(e)[:80]} (intermediate wire not resolved)"))
             return self.atom(e)
         if k == 'call' and e[1] == ('name', 'Mux') and len(e[2]) == 3 and self.w.bit(e[2][1]) and self.w.bit(e[2][2]):
             return ('ite', self._b(e[2][0], True), self._b(e[2][1]), self._b(e[2][2]))
@@ -359,15 +392,8 @@ class Engine:
             return self.atom(e)
         raise Undecided(f"not a Boolean expression: {ir.show(e)}")
 
-    def wire_formula(self, s):
-        """A local one-bit signal driven only combinationally and only as a whole is a *wire*: its value is a Boolean
-        function of its drivers (later assignment wins, unassigned = its default).  Returns that function, or None."""
+    def _index_drivers(self):
         t = self.w.t
-        if t is None or s[1] not in t.sigs:
-            return None
-        if s in self._wire_cache:
-            return self._wire_cache[s]
-        self._wire_cache[s] = None                      # a wire that (transitively) reads itself is left alone
         if self._by_target is None:
             self._by_target, self._partial = {}, set()
             for d_ in t.drivers:
@@ -377,6 +403,92 @@ class Engine:
                     for x in ir.walk(tn):
                         if x[0] == 'sig':
                             self._partial.add(x)
+
+    def is_comb_wire(self, s):
+        t = self.w.t
+        if t is None or s[0] != 'sig' or s[1] not in t.sigs:
+            return False
+        self._index_drivers()
+        ds = self._by_target.get(s, [])
+        return bool(ds) and s not in self._partial and all(d_.domain == 'comb' for d_ in ds)
+
+    def wire_equals(self, s, K):
+        """Formula of `w == K` for a local multi-bit wire w (combinational, whole-signal drivers only): by priority, the
+        value of the winning driver is compared with K; with no driver active the wire holds its default.  A driver that
+        sits in a generation loop which the wire itself is outside of stands for one driver per iteration: the iteration
+        the comparison belongs to is kept symbolic, all *other* iterations are summarised by one atom that is exclusive
+        with this iteration's Case and whose value (another loop index) differs from this iteration's index."""
+        t = self.w.t
+        if not self.is_comb_wire(s) or self.w.bit(s):
+            return None
+        sig = t.sigs[s[1]]
+        ctor = sig.ctor
+        if ctor[0] != 'call' or ctor[1] != ('name', 'Signal'):
+            return None
+        kws = dict(ctor[3])
+        dflt = self.norm(kws.get('init', kws.get('reset', ('const', 0))))
+
+        def eqf(v, k):
+            v, k = self.norm(v), self.norm(k)
+            if v == k:
+                return T
+            if v[0] == 'const' and k[0] == 'const':
+                return F
+            if v[0] == 'enum' and k[0] == 'enum':
+                return T if v == k else F
+            if ir.contains(v, lambda x: x[0] in ('sig', 'opaque', 'call')) or ir.contains(k, lambda x: x[0] in ('sig', 'opaque', 'call')):
+                return None
+            return self.atom(self.norm(('cmp', '==', v, k)))
+        wire_loops = {fr[1] for fr in sig.gen if fr[0] == 'for'}
+        f = eqf(dflt, K)
+        if f is None:
+            return None
+        ds = sorted(self._by_target[s], key=lambda x: (tuple(c.v if hasattr(c, "v") else c for c in x.order), x.seqno))
+        for d_ in ds:
+            g = self.guard(d_)
+            this = eqf(d_.value, K)
+            if this is None:
+                return None
+            extra = [fr[1] for fr in d_.gen if fr[0] == 'for' and fr[1] not in wire_loops]
+            if extra:
+                if len(extra) != 1:
+                    return None
+                L = extra[0]
+                v = self.norm(d_.value)
+                k = self.norm(K)
+                if v != ('idx', L) or not ir.contains(k, lambda x: x == ('idx', L)) or k != ('idx', L):
+                    return None                     # only "assigns its own loop index, compared with this iteration's index"
+                cases = [fr for fr in d_.dsl if fr[0] == 'case']
+                if len(cases) != 1 or len(d_.dsl) != len([fr for fr in d_.dsl if fr[0] in ('case', 'switch')]):
+                    return None
+                key = f"other-iteration#{L}:{f_show(g)}"
+                group = self.atom_ir.get(f_show(g))
+                self.atom_ir[key] = ('caseatom', self._case_group(cases[0]), ('other', L))
+                other = ('atom', key)
+                f = ('ite', g, this, ('ite', other, F, f))
+            else:
+                f = ('ite', g, this, f)
+        return f
+
+    def _case_group(self, fr):
+        """Exclusivity group of a Case frame (the same key frame_formula files its atom under)."""
+        t = self.w.t
+        pats = tuple(self.norm(p) for p in fr[2])
+        subj = self.norm(t.switches[fr[1]]) if t is not None and fr[1] in t.switches else None
+        shared = subj is not None and pats and all(
+            p[0] in ('idx', 'enum') or (p[0] == 'const' and isinstance(p[1], int) and not isinstance(p[1], bool)) for p in pats)
+        return ('subj', ir.show(subj)) if shared else fr[1]
+
+    def wire_formula(self, s):
+        """A local one-bit signal driven only combinationally and only as a whole is a *wire*: its value is a Boolean
+        function of its drivers (later assignment wins, unassigned = its default).  Returns that function, or None."""
+        t = self.w.t
+        if t is None or s[1] not in t.sigs:
+            return None
+        if s in self._wire_cache:
+            return self._wire_cache[s]
+        self._wire_cache[s] = None                      # a wire that (transitively) reads itself is left alone
+        self._index_drivers()
         ds = self._by_target.get(s, [])
         if not ds or s in self._partial or any(d_.domain != 'comb' for d_ in ds) or not self.w.bit(s):
             return None
@@ -662,8 +774,15 @@ def compare(engine, got, want, assume=None):
             if any("<<" in k for k in val):
                 raise Undecided(f"at [{on}] the two sides differ, but a condition involves a construct the analysis treats as opaque "
                                 "(an intermediate wire of unverified width, an unmodelled call): equivalence is not decided (N5)")
-            opaque_side = (a[0] == 'sym' and is_config(a[2])) or (b[0] == 'sym' and is_config(b[2]))
-            if opaque_side or (a[0] == 'sym' and b[0] == 'sym' and differ(a[2], b[2]) != 'different'):
+            def cfg(x):
+                # a value computed through an intermediate wire or a Python list the comparison cannot see through is opaque
+                if any(y[0] == 'listacc' or (y[0] == 'sig' and engine.is_comb_wire(y)) for y in ir.walk(x)):
+                    return True
+                # a private attribute that the constructor creates as a Signal is a signal, not a configuration quantity
+                return is_config(x) and not engine.w.is_signal(x)
+            opaque_side = (a[0] == 'sym' and cfg(a[2])) or (b[0] == 'sym' and cfg(b[2]))
+            both_signals = a[0] == 'sym' and b[0] == 'sym' and engine.w.is_signal(a[2]) and engine.w.is_signal(b[2]) and a[2] != b[2]
+            if not both_signals and (opaque_side or (a[0] == 'sym' and b[0] == 'sym' and differ(a[2], b[2]) != 'different')):
                 raise Undecided(f"at [{on}] the value is {_vs(a)} where the role table has {_vs(b)}: two expressions outside the "
                                 "normal forms; their equivalence is not decided (N5)")
             return False, rows, f"at [{on}] found {_vs(a)} expected {_vs(b)}"
